@@ -204,6 +204,7 @@ def check(db, rep):
     # ------------------------------------------------------------------ r6
     r6 = rep.rule('r6', 'NO-FAULT: throwing operations of the reference parser are guarded (noexcept + at() on a possibly empty token; stoi on an unbounded digit string)', 3)
     _no_fault(db, r6)
+    _write_back_and_resolve(db, rep)
 
 
 def _init_of(f, name):
@@ -295,3 +296,131 @@ def _no_fault(db, r6):
             r6.ok('DeduceRefType', 'token and character accesses are dominated by size/empty tests', '%s:%d' % (dt.file, dt.line))
         else:
             r6.violation('DeduceRefType', '%s:%d' % (dt.file, dt.line), 'a token or its first character is accessed without a dominating size/empty test inside a noexcept function')
+
+
+def _write_back_and_resolve(db, rep):
+    """r7/r8: RefsManager::OutputRefs and ResolveAll evaluated from their AST over all small reference lists against necessary conditions of
+    'writing references back restores the original text' and 'resolving replaces each reference by its resolution'."""
+    import itertools
+    RM = 'ccl::lang::RefsManager'
+    r7 = rep.rule('r7', 'WRITE-BACK: for every sub-range and every sorted list of up to two references in a window, each reference lying entirely inside the sub-range is written back as a reference, references outside are not, text pieces stay inside the sub-range and off the references written', 1)
+    c = [g for g in db.methods_of(RM) if g.name.endswith('::OutputRefs') and len(g.rec['params']) == 2 and g.has_cfg()]
+    if len(c) != 1:
+        r7.broken('anchor vanished: RefsManager::OutputRefs(normStr, subRange)')
+    else:
+        f = c[0]
+        W = range(0, 7)
+        bad = None
+        cases = 0
+        try:
+            spans = [(a, b) for a in W for b in W if a < b]
+            lists = [[]] + [[s] for s in spans] + [[s1, s2] for s1 in spans for s2 in spans if s1[1] <= s2[0]]
+            for refs in lists:
+                for sub in [(a, b) for a in W for b in W if a <= b]:
+                    cases += 1
+                    this = Obj(refs=[Obj(position=Obj(start=a, finish=b), idx=i) for i, (a, b) in enumerate(refs)])
+                    pieces = []
+
+                    def on_call(it, fn, n, env, pieces=pieces):
+                        cs = n.get('cs') or ''
+                        if cs == 'ccl::lang::Reference::ToString':
+                            o = it.eval(fn, fn.stmts[n['obj']], env)
+                            pieces.append(('ref', o['idx']))
+                            return b'R'
+                        if cs == 'ccl::Substr':
+                            r = it.eval(fn, fn.stmts[n['args'][1]], env)
+                            pieces.append(('text', r['start'], r['finish']))
+                            return b't'
+                        return NOT_HANDLED
+                    Interp(db, on_call=on_call).call(f, [b'text', Obj(start=sub[0], finish=sub[1])], this)
+                    written = [p[1] for p in pieces if p[0] == 'ref']
+                    inside = [i for i, (a, b) in enumerate(refs) if sub[0] <= a and b <= sub[1]]
+                    outside = [i for i, (a, b) in enumerate(refs) if b <= sub[0] or a >= sub[1]]
+                    why = None
+                    if [i for i in inside if i not in written] or written != sorted(set(written)):
+                        why = 'reference(s) %s lie inside the sub-range but are not written back (written: %s)' % ([refs[i] for i in inside if i not in written], written)
+                    elif [i for i in written if i in outside]:
+                        why = 'reference %s does not touch the sub-range but is written' % [refs[i] for i in written if i in outside]
+                    else:
+                        for p in pieces:
+                            if p[0] == 'text':
+                                if not (sub[0] <= p[1] <= p[2] <= sub[1]):
+                                    why = 'text piece [%d,%d) leaves the sub-range' % (p[1], p[2])
+                                for i in written:
+                                    a, b = refs[i]
+                                    if p[1] < b and a < p[2]:
+                                        why = 'text piece [%d,%d) overlaps the reference %s that is written back as a reference' % (p[1], p[2], refs[i])
+                    if why and bad is None:
+                        bad = 'references at %s, sub-range [%d,%d): %s' % (refs, sub[0], sub[1], why)
+        except OutOfFragment as e:
+            r7.broken('OutputRefs outside the evaluable fragment: %s' % e)
+            bad = 'broken'
+        if bad == 'broken':
+            pass
+        elif bad:
+            r7.violation('OutputRefs', '%s:%d' % (f.file, f.line), bad)
+        else:
+            r7.ok('OutputRefs', 'holds on %d (reference list, sub-range) cases' % cases, '%s:%d' % (f.file, f.line))
+
+    r8 = rep.rule('r8', 'RESOLVE-ALL: every stored reference is resolved exactly once, entities before any collaboration (whose master must already be resolved)', 1)
+    g = db.fn(RM + '::ResolveAll', required=False)
+    if g is None:
+        r8.broken('anchor vanished: RefsManager::ResolveAll')
+        return
+    bad = None
+    cases = 0
+    try:
+        kinds = [('E', 0), ('C', -1), ('C', 0), ('C', 1), ('C', 2)]
+        for n_refs in (0, 1, 2, 3):
+            for combo in itertools.product(kinds, repeat=n_refs):
+                cases += 1
+                log = []
+                this = Obj(refs=[Obj(kind=k, offset=o, idx=i) for i, (k, o) in enumerate(combo)], context=Obj())
+
+                def on_call(it, fn, n, env, log=log):
+                    cs = n.get('cs') or ''
+                    last = cs.split('::')[-1]
+                    if cs.startswith('ccl::lang::Reference::') and 'obj' in n:
+                        o = it.eval(fn, fn.stmts[n['obj']], env)
+                        if isinstance(o, tuple) and len(o) == 2 and o[0] == 'ptr':
+                            o = o[1]
+                        if last == 'IsEntity':
+                            return o['kind'] == 'E'
+                        if last == 'IsCollaboration':
+                            return o['kind'] == 'C'
+                        if last == 'GetOffset':
+                            if o['kind'] != 'C':
+                                raise OutOfFragment('GetOffset on an entity reference (bad_variant_access)')
+                            return o['offset']
+                        if last in ('ResolveEntity', 'ResolveCollaboration'):
+                            if (last == 'ResolveEntity') != (o['kind'] == 'E'):
+                                raise OutOfFragment('%s on the wrong kind of reference (bad_variant_access)' % last)
+                            log.append((last, o['idx']))
+                            return None
+                    if last == 'FindMaster':
+                        return None
+                    return NOT_HANDLED
+                Interp(db, on_call=on_call).call(g, [], this)
+                want = sorted(('ResolveEntity' if k == 'E' else 'ResolveCollaboration', i) for i, (k, o) in enumerate(combo))
+                why = None
+                if sorted(log) != want:
+                    missing = [x for x in want if x not in log]
+                    twice = [x for x in set(log) if log.count(x) > 1]
+                    why = 'not resolved: %s' % missing if missing else 'resolved more than once: %s' % twice
+                else:
+                    first_c = min([j for j, x in enumerate(log) if x[0] == 'ResolveCollaboration'], default=None)
+                    last_e = max([j for j, x in enumerate(log) if x[0] == 'ResolveEntity'], default=None)
+                    if first_c is not None and last_e is not None and first_c < last_e:
+                        why = 'a collaboration is resolved before entity #%d, which may be its master' % log[last_e][1]
+                if why and bad is None:
+                    bad = 'references %s: %s' % (['entity' if k == 'E' else 'collaboration(offset %d)' % o for k, o in combo], why)
+    except OutOfFragment as e:
+        if 'bad_variant_access' in str(e):
+            r8.violation('ResolveAll', '%s:%d' % (g.file, g.line), str(e))
+        else:
+            r8.broken('ResolveAll outside the evaluable fragment: %s' % e)
+        return
+    if bad:
+        r8.violation('ResolveAll', '%s:%d' % (g.file, g.line), bad)
+    else:
+        r8.ok('ResolveAll', 'every reference resolved exactly once, entities first, on %d lists of up to 3 references' % cases, '%s:%d' % (g.file, g.line))
